@@ -288,6 +288,21 @@ instance (H : HandoffParams) : Decidable H.Good := by unfold HandoffParams.Good;
 accept the streams that follow: later brokered connections, new transports of the main connection)? -/
 def loopPastHandoff (H : HandoffParams) (taken closed : Bool) : Bool := taken || (closed && H.releasedOnClose)
 
+/-- fact: the knock loop of a multiplexed listener waits on the pending slot `Accept` registered the listener with — it is
+handed that slot — and not on whatever slot a look-up by id returns when the loop's goroutine finally runs -/
+structure KnockLoopParams where
+  usesAcceptSlot : Bool
+  deriving DecidableEq, Repr
+
+def KnockLoopParams.Good (K : KnockLoopParams) : Prop := K.usesAcceptSlot = true
+instance (K : KnockLoopParams) : Decidable K.Good := by unfold KnockLoopParams.Good; exact inferInstance
+
+/-- the listener has been closed (its slot's `doneCh` closed, the slot removed from the table).  `closedBeforeLoopRan`:
+that happened before the knock loop's goroutine executed its first statement.  Does the loop end?  (A loop that looks
+the slot up by id then creates a FRESH slot, whose `doneCh` nothing ever closes: it outlives the listener, the broker
+and `Kill`.) -/
+def knockLoopEnds (K : KnockLoopParams) (closedBeforeLoopRan : Bool) : Bool := K.usesAcceptSlot || !closedBeforeLoopRan
+
 /-- fact (host side): closing a brokered listener that holds a token — its knock was acknowledged, the announced stream
 was never accepted — takes that stream off the session and closes it, instead of leaving it for whichever listener is
 unblocked next -/
